@@ -30,6 +30,8 @@ type behaviour struct {
 	// OnGenErr / OnBuildErr decide what a non-generated / non-compiling program means for this property.
 	OnGenErr   func(sc *SCase, msg string)
 	OnBuildErr func(sc *SCase, msg string)
+	// OnProgram is called once per compiled program.
+	OnProgram func(sc *SCase, p *batch.Program)
 	// Extra is called for every observation after the standard comparison.
 	Extra func(sc *SCase, m *refmodel.Model, d *refmodel.Doc, tv refmodel.Verdict, o *drv.Obs)
 }
@@ -122,6 +124,9 @@ func runBehaviour(ctx *Ctx, b behaviour) {
 		}
 		m.MinSized = p.Case.Cfg.MinSizedInts
 		ctx.Run.Count("programs_executed", 1)
+		if b.OnProgram != nil {
+			b.OnProgram(sc, p)
+		}
 		var docs []refmodel.Doc
 		if b.DocGen != nil {
 			docs = b.DocGen(sc, m)
@@ -409,4 +414,8 @@ func coarseClass(c string) string {
 		c = c[:i]
 	}
 	return c
+}
+
+func jsonvDiffWithout(want, got any, key string) string {
+	return jsonv.Diff("$", dropKey(want, key), dropKey(got, key))
 }
